@@ -597,7 +597,7 @@ func (l *ShardedMap[K, V]) GetOrCreate(
 			},
 			create,
 		)
-		if err == nil && created {
+		if created {
 			atomic.AddInt64(&l.length, 1)
 		}
 
